@@ -246,6 +246,11 @@ int c09_run(const char *tier) {
 	uint8_t param[1] = {0}; const char *d = getenv("VERIF_DEPTH");
 	e2_spec_t s = { .harness = "c09.hist", .param = param, .nparam = 1, .nevents = H_N, .max_depth = d ? atoi(d) : (thorough ? 8 : 5), .label = "c09.hist", .evname = hevname };
 	e2_explore(&s);
+	/* concurrent commands (harness shared with C10/H6): the messages and the optimistic state after two commands issued by
+	 * two threads equal those of one of the two sequential orders — "other functions of the group preserved" must survive a
+	 * concurrent command as well */
+	{ extern void c10_run_lin(int bound, long *execs, long *states, long *transitions, int *exhaustive); long le = 0, ls = 0, lt = 0; int lex = 1;
+	  c10_run_lin(thorough ? 2 : 1, &le, &ls, &lt, &lex); s.execs += le; s.states += ls; s.transitions += lt; if (!lex) s.exhaustive = 0; }
 	rep_count("states", s.states + e.distinct_outcomes); rep_count("transitions", s.transitions + rep_get("commands")); rep_count("executions", s.execs + e.done + g.done);
 	rep_flag("exhaustive", s.exhaustive && e.exhaustive && g.exhaustive);
 	char sb[200]; size_t o = 0; for (int i = 0; i <= s.depth_completed + 1 && i < 16; i++) o += (size_t) snprintf(sb + o, sizeof sb - o, "%ld ", s.states_by_depth[i]);
